@@ -243,6 +243,25 @@ def gen_script(rng, logic=None, incremental=False, options=(), produce_models=Tr
             if j < 0.7:
                 return "(distinct (h %d) %s (h %s))" % (c, x, rng.choice(g.numvars))
             return "(and (not (= (h %s) %s)) (<= %d %s))" % (rng.choice(g.numvars), x, c, x)
+        if g.usort and g.ufuns and rng.random() < 0.2:
+            # a distinct whose arguments are already members (not representatives) of merged classes when it is asserted, followed by
+            # an equality that merges two of its arguments (unsat) or an argument with an outsider (sat); compound terms only, so
+            # that no substitution removes the equalities
+            def comp():
+                f, n = rng.choice(g.ufuns)
+                return "(%s %s)" % (f, " ".join(rng.choice(g.uvars) for _ in range(n)))
+            pool = []
+            for _ in range(40):
+                c = comp()
+                if c not in pool:
+                    pool.append(c)
+                if len(pool) == 5:
+                    break
+            if len(pool) == 5:
+                t0, t1, t2, t3, t4 = pool
+                last = "(= %s %s)" % (t0, t2 if rng.random() < 0.6 else t4)
+                parts = ["(= %s %s)" % ((t0, t1) if rng.random() < 0.5 else (t1, t0)), "(distinct %s %s %s)" % (t1, t2, t3 if rng.random() < 0.7 else rng.choice(g.uvars)), last]
+                return "(and %s)" % " ".join(parts)
         if k < 0.3 and g.num and not g.dl:
             return "(= %s %s)" % (rng.choice(g.numvars), g.nterm(2))
         if k < 0.4 and g.usort:
